@@ -960,12 +960,32 @@ impl Rig {
                 verif::trace::emit(json!({"e": "OwnCall", "kind": kind, "tag": st["tag"]}));
                 let rt = self.rt.clone();
                 let url_arg = st["url"].as_str().map(|x| x.to_string());
+                let rotate = st["rotate"].clone();
                 let kind2 = kind.clone();
                 // a panic inside the client code must not take the driver thread down: it is data
                 let res = std::panic::catch_unwind(std::panic::AssertUnwindSafe(move || rt.block_on(async {
                     let kind = kind2;
                     let st = json!({"url": url_arg});
                     match kind.as_str() {
+                        // one long-lived client (as the telemetry reader keeps it) makes both calls of a metadata refresh;
+                        // the key keeper latches another key between them
+                        "refresh" => {
+                            let client = crate::host_clients::wire_server_client::WireServerClient::new("168.63.129.16", 80, kk.clone());
+                            let a = client.get_goalstate().await.is_ok();
+                            if !rotate.is_null() {
+                                let key: Key = serde_json::from_value(json!({
+                                    "authorizationScheme": "Azure-HMAC-SHA256",
+                                    "guid": rotate["guid"], "issued": "2021-05-05T 12:00:00Z", "key": rotate["key"], "incarnationId": 2
+                                }))
+                                .expect("key");
+                                let _ = kk.update_key(key).await;
+                            }
+                            let b = client
+                                .get_shared_config("http://168.63.129.16:80/machine/x?comp=config&type=sharedConfig&incarnation=1".to_string())
+                                .await
+                                .is_ok();
+                            a && b
+                        }
                         "goalstate" => crate::host_clients::wire_server_client::WireServerClient::new("168.63.129.16", 80, kk)
                             .get_goalstate()
                             .await
